@@ -27,7 +27,7 @@ PROPERTY = "C14"
 LEVEL = "fault_enumeration"
 RULE = (
     "close paths {stapled stream, stapled datagram, stream endpoint over an in-memory leaf, asyncio socket adapter (clean / unsent data "
-    "with a peer that reads later or never), AsyncTCPNetworkClient connected / never connected / connecting / with a suspended sender} "
+    "with a peer that reads later or never / another task parked in a receive), AsyncTCPNetworkClient connected / never connected / connecting / with a suspended sender} "
     "x leaf faults {none, aclose raises OSError, aclose needs 2 checkpoints, aclose blocks forever} per leaf x one task.cancel() of the "
     "closing task placed at EVERY loop-iteration boundary x a second aclose() placed at every boundary (two placements per run, busy "
     "placements costed, bound 2 quick / 3 thorough); distinct_nontrivial = distinct (path, fault, how the close ended, placement shape)"
@@ -53,7 +53,7 @@ def scenarios(tier: str) -> list[dict]:
                 out.append({"path": kind, "fa": fa, "fb": fb})
     for f in FAULTS:
         out.append({"path": "endpoint-mem", "fa": f, "fb": "none"})
-    for v in ("clean", "unsent-peer-reads", "unsent-peer-never-reads"):
+    for v in ("clean", "unsent-peer-reads", "unsent-peer-never-reads", "parked-receiver"):
         out.append({"path": "adapter", "variant": v})
         out.append({"path": "client-connected", "variant": v})
     out.append({"path": "client-never-connected"})
@@ -72,7 +72,7 @@ def run(ctx: Ctx, cfg: dict) -> dict:
     extra_chains: list[Chain] = []
     sock = None
     if cfg["path"] in ("adapter", "client-connected", "client-never-connected", "client-connecting", "srv-client-aclose", "srv-shutdown"):
-        unsent = cfg.get("variant", "clean") != "clean"
+        unsent = cfg.get("variant", "clean") not in ("clean", "parked-receiver")
         sock = world.stream_socket(tx_cap=2 if unsent else None)
         if cfg.get("variant") == "unsent-peer-reads":
             def drain() -> None:
@@ -172,7 +172,18 @@ def run(ctx: Ctx, cfg: dict) -> dict:
             obj = AsyncTCPNetworkClient(sock, StreamProtocol(StringLineSerializer()), backend)
             if path == "client-connecting":
                 wtask = loop.create_task(obj.wait_connected())
-        if cfg.get("variant", "clean") != "clean":
+        rtask = None
+        if cfg.get("variant") == "parked-receiver":
+            # another task is waiting for data on the object that is being closed: it must be released (error or end-of-stream), not left hanging
+            async def rcv() -> None:
+                if path == "adapter":
+                    await obj.recv(64)
+                else:
+                    await obj.recv_packet()
+            rtask = loop.create_task(rcv())
+            for _ in range(4):
+                await asyncio.sleep(0)
+        elif cfg.get("variant", "clean") != "clean":
             # leave unsent bytes in the asyncio transport: a sender suspended on a full pipe is cancelled
             async def snd() -> None:
                 if path == "adapter":
@@ -226,6 +237,16 @@ def run(ctx: Ctx, cfg: dict) -> dict:
                     await asyncio.sleep(0)
         for _ in range(3):
             await asyncio.sleep(0)
+        if rtask is not None:
+            for _ in range(5):
+                if rtask.done():
+                    break
+                await asyncio.sleep(0)
+            out["receiver_released"] = rtask.done()
+            if not rtask.done():
+                rtask.cancel()
+            else:
+                rtask.exception() if not rtask.cancelled() else None
         out["leaves_closed"] = [lf.closed for lf in leaves]
         out["sock_closed"] = None if sock is None else sock.closed_flag
         out["is_closing"] = obj.is_closing()
@@ -281,6 +302,8 @@ def oracle(cfg: dict, obs: dict) -> str | None:
         injected = "error" in (cfg.get("fa"), cfg.get("fb"))
         if closer != "raised:OSError" or not injected:
             return "close-raised-unexpected-" + closer[7:]
+    if obs.get("receiver_released") is False:
+        return "parked-receiver-not-released-by-the-close"
     if not obs["is_closing"]:
         return "is_closing-false-after-close"
     if obs.get("second_started") and obs.get("second_done") is False:
